@@ -34,8 +34,13 @@ from explorerscript.ssb_converting.compiler.compile_handlers.abstract import (
 )
 from explorerscript.ssb_converting.compiler.compile_handlers.atoms.integer_like import IntegerLikeCompileHandler
 from explorerscript.ssb_converting.compiler.utils import CompilerCtx
-from explorerscript.ssb_converting.ssb_data_types import SsbRoutineInfo, SsbRoutineType, SsbOpParam
-from explorerscript.util import exps_int
+from explorerscript.ssb_converting.ssb_data_types import (
+    SsbRoutineInfo,
+    SsbRoutineType,
+    SsbOpParam,
+    SsbOpParamConstant,
+)
+from explorerscript.util import exps_int, _
 
 
 class ForTargetDefCompileHandler(AbstractFuncdefCompileHandler[ExplorerScriptParser.For_target_defContext]):
@@ -50,10 +55,12 @@ class ForTargetDefCompileHandler(AbstractFuncdefCompileHandler[ExplorerScriptPar
         linked_to = -1
         linked_to_name = None
         integer_like = self._linked_to_target
-        try:
-            linked_to = exps_int(integer_like)  # type: ignore
-        except ValueError:
-            linked_to_name = integer_like.name  # type: ignore
+        if isinstance(integer_like, int):
+            linked_to = integer_like
+        elif isinstance(integer_like, SsbOpParamConstant):
+            linked_to_name = integer_like.name
+        else:
+            raise SsbCompilerError(_("The target of a routine must be an integer or a constant."))
 
         target: ExplorerScriptParser.For_target_def_targetContext = self.ctx.for_target_def_target()
         legacy_deprecated_target = target.FOR_TARGET()
